@@ -84,16 +84,26 @@ func mustSum(data []byte, code uint64) multihash.Multihash {
 }
 
 // collidingData finds two short strings whose sha2-256 digests share the first
-// byte (same bucket under an 8-bit index) — found by enumeration, not chance.
+// two bytes: the same bucket under an 8-bit index and the same first byte of
+// the stored key, so that with only one of them stored a lookup of the other
+// resolves to the stored one's record and only the comparison of the full keys
+// tells them apart — found by enumeration, not chance (memoised).
+var collidingMemo [2][]byte
+
 func collidingData() ([]byte, []byte) {
-	seen := map[byte][]byte{}
+	if collidingMemo[0] != nil {
+		return collidingMemo[0], collidingMemo[1]
+	}
+	seen := map[[2]byte][]byte{}
 	for i := 0; ; i++ {
 		d := []byte(fmt.Sprintf("blk%d", i))
 		s := sha256.Sum256(d)
-		if o, ok := seen[s[0]]; ok {
+		k := [2]byte{s[0], s[1]}
+		if o, ok := seen[k]; ok {
+			collidingMemo = [2][]byte{o, d}
 			return o, d
 		}
-		seen[s[0]] = d
+		seen[k] = d
 	}
 }
 
